@@ -19,7 +19,7 @@ it is a proved lemma.  Chain (u = 2^-24, x = val(a), a = E*2^23 + M the input bi
  ZRANGE   (z3 nlsat, reals M, mt=(M>>1) in [M/2-1/2, M/2]; four cases (p,b) that cover everything)   0.9003 <= z <= 1.1035
  HALF     (z3, bit-vectors)  the node fp.mul(0.5, x):  E >= 2 -> bits = a - 2^23 (exact halving);  E = 1 -> |2*bits - a| <= 1 (subnormal result,
           absolute error <= 2^-150 <= 2^-23 * x/2)                                         => xhalf = (x/2)(1+d0), |d0| <= 2^-23
- RANGE    (z3, bit-precise IEEE on the real term, one atom each)  every other operation node has constant sign and biased exponent in [2, 254]; for add/sub
+ RANGE    (cvc5, z3 as fallback; bit-precise IEEE on the real term, one atom each)  every other operation node has constant sign and biased exponent in [2, 254]; for add/sub
           nodes additionally |exponent difference of the operands| <= 28 (exact result fits binary64).  Modular: a node whose exponent varies by at most 2 over a
           fixed list of concrete inputs (evaluated on the term; this only PROPOSES the interval) is proved to stay in exactly that interval for all inputs, and the
           nodes above it are proved with that node replaced by an arbitrary float of the interval (here: xhalf*y0*y0 in [0.25,1) => 1.5 - t in [0.5,2) => Y normal)
@@ -33,8 +33,7 @@ it is a proved lemma.  Chain (u = 2^-24, x = val(a), a = E*2^23 + M the input bi
 
 When a lemma fails, the counterexample of the abstraction is lifted to a window of bit patterns and a bit-precise query with the EXACT specification
 (Y^2*x evaluated without rounding in a wider FP sort) is asked there; only a solver model that reproduces natively (g++ and clang++) is a VIOLATION,
-anything else is INCONCLUSIVE.  thorough additionally proves RANGE for every (L,k) instead of one representative per commutativity class, adds mutant
-twins, and re-proves the claim for x in [1,4) fully bit-precisely (no STDMODEL, no DECODE beyond the monotone order of positive floats): biased exponent 127/128
+anything else is INCONCLUSIVE.  thorough additionally adds mutant twins and re-proves the claim for x in [1,4) fully bit-precisely (no STDMODEL, no DECODE beyond the monotone order of positive floats): biased exponent 127/128
 with the top 8 (lower bound; 512 sub-intervals) resp. top 7 (upper bound; 256 sub-intervals) mantissa bits fixed - the index runs over all values, so the union is
 syntactically all of [1,4) - each with a constant bound  Y >= L_j  resp.  0 < Y <= H_j  where L_j^2*min(x) > (1-2^-8)^2 and H_j^2*max(x) < (1+2^-8)^2 are asserted in
 exact rational arithmetic (cvc5 first, z3 as fallback; a spurious model halves the interval, from depth 3 on with the exact specification).
@@ -50,8 +49,7 @@ CLAIM = ("lowp fast approximation glm::inversesqrt(vec<L,float,lowp>), L = 1..4,
          "per operation node, polynomial identity (scale invariance), and nlsat bounds over y0^2*x and the rounding errors of the standard model; thorough adds a fully bit-precise proof "
          "for x in [1,4) over complete partitions into 512 (lower bound) and 256 (upper bound) sub-intervals.")
 BOUNDS = ("x: every positive normal binary32 value, bits 0x00800000..0x7f7fffff (2^-126 <= x < 2^128), fully symbolic (biased exponent and mantissa); vector lengths 1-4, every component; "
-          "no unwinding (straight-line code).  quick: bit-precise RANGE lemmas once per class of components whose terms agree up to the order of commutative operands; thorough: every component, "
-          "plus bit-precise interval proof on [1,4) for the vec1 instance.")
+          "no unwinding (straight-line code).  quick and thorough: the whole lemma chain for every component; thorough: additionally mutant twins and the bit-precise interval proof on [1,4) for the vec1 instance.")
 OUTSIDE = ("x = 0, subnormal x (the approximation is NOT accurate there: e.g. x = 2^-127 (bits 0x00400000) gives Y*sqrt(x)-1 = -3.8e-2, x = 0 gives the finite value 1.98e19), negative x, inf, NaN; "
            "aligned (SIMD) lowp qualifiers; the trusted IEEE facts listed in ASSUMPTIONS (binary32 encoding; correct rounding of fp.mul/fp.sub) are not re-derived bit-precisely for all binades - "
            "only for x in [1,4) in the thorough tier.")
@@ -59,8 +57,7 @@ ASSUMPTIONS = ['IEEE-754 binary32 encoding: a pattern with biased exponent 1 <= 
                'standard model of IEEE-754 round-to-nearest-even arithmetic: fp.mul/fp.add/fp.sub return RNE(exact real result); for a result with biased exponent in [2,254] this gives fl = exact*(1+d), |d| <= 2^-24.  '
                'The rounding part (|binary32(r)-r| <= 2^-24|r| for every binary64 r in the normal range) and the exactness of the products/differences in binary64 are discharged by the solver (lemmas stdmodel.*); '
                'that fp.mul on binary32 equals rounding the exact product is the definition of the operation (SMT-LIB FloatingPoint theory) and is not re-proved',
-               'the real relaxation of the integer fields (M real in [0, 2^23-1], M>>1 real in [M/2-1/2, M/2]) over-approximates the integers',
-               'IEEE multiplication/addition are commutative (components whose terms differ only in operand order share the quick-tier RANGE lemmas)']
+               'the real relaxation of the integer fields (M real in [0, 2^23-1], M>>1 real in [M/2-1/2, M/2]) over-approximates the integers']
 EXPLANATION = ('lowp inversesqrt accuracy: lemma chain FIELDS (bit-vectors) -> DECODE (trusted IEEE encoding) -> ZRANGE (nlsat) ; HALF, RANGE (bit-precise IEEE) -> STDMODEL (trusted correct rounding, '
                'supported by stdmodel.* lemmas) ; HOM (identity) ; MAINZ (nlsat) ; COMPOSE (nlsat); see the module docstring of props/c01_lowp.py')
 TRUSTED = ['props/c01_lowp.py: generic walker from the z3 FP term to its standard-model real abstraction (fp.mul/fp.add/fp.sub/constants/bit-cast leaves, RNE only; anything else is reported as not encoded)']
@@ -348,34 +345,49 @@ def range_plan(c):
     for i, n in enumerate(c.A.nodes):
         if n.kind == 'half': continue
         sg, emin, emax = obs[i]
-        tight = len(sg) == 1 and emax - emin <= 2 and emin >= 2 and emax <= 254
+        tight = len(sg) == 1 and emax - emin <= 2 and emin >= 2 and emax < 254
         term = z3.substitute(n.term, *subst) if subst else n.term
         l = z3.substitute(n.l, *subst) if subst else n.l; r = z3.substitute(n.r, *subst) if subst else n.r
-        used = [h for (v, h) in hyps if v.decl().name() in _vars(term) | _vars(l) | _vars(r)]
-        hy = (c.pre if c.a.decl().name() in _vars(term) else []) + [x for h in used for x in h]
-        nb = z3.fpToIEEEBV(term); e = z3.Extract(30, 23, nb)
+        vs = _vars(term) | _vars(l) | _vars(r)
+        used = [(v, h) for (v, h) in hyps if v.decl().name() in vs]
+        hy = (c.pre if c.a.decl().name() in vs else []) + [x for v, h in used for x in h]
         lo, hi = (emin, emax) if tight else (2, 254)
-        goals = [('exp>=%d' % lo, z3.UGE(e, lo)), ('exp<=%d' % hi, z3.ULE(e, hi))]
-        if len(sg) == 1: goals.append(('sign=%d' % min(sg), z3.Extract(31, 31, nb) == min(sg)))
+        # biased exponent in [lo,hi] and sign, written as FP comparisons (cvc5 has no fp.to_ieee_bv): lo <= e  <=>  v >= 2^(lo-127),  e <= hi  <=>  v < 2^(hi-126)  (v <= FLT_MAX for hi = 254)
+        v = term if sg == {0} else (z3.fpNeg(term) if sg == {1} else z3.fpAbs(term))
+        sgn = {0: 'sign 0, ', 1: 'sign 1, '}.get(min(sg) if len(sg) == 1 else None, '')
+        goals = [('exp>=%d' % lo, z3.fpGEQ(v, FPV(2.0 ** (lo - 127))), 'cvc5'),
+                 ('exp<=%d' % hi, z3.fpLT(v, FPV(2.0 ** (hi - 126))) if hi < 254 else z3.fpLEQ(v, fpof(bv(0x7f7fffff, 32))), 'cvc5')]
         if n.op in ('add', 'sub'):
             el = z3.ZeroExt(2, z3.Extract(30, 23, z3.fpToIEEEBV(l))); er = z3.ZeroExt(2, z3.Extract(30, 23, z3.fpToIEEEBV(r)))
-            goals.append(('expgap<=28', z3.And(el - er <= 28, er - el <= 28)))
-        note = 'biased exponent of the node in [%d,%d]%s' % (lo, hi, '; operands below replaced by any float of their proved exponent interval/sign: %s' % ', '.join(str(v) for v, h in hyps if h in used) if used else '')
+            goals.append(('expgap<=28', z3.And(el - er <= 28, er - el <= 28), 'z3'))
+        note = '%sbiased exponent of the node in [%d,%d]%s' % (sgn, lo, hi, '; operands below replaced by any float of their proved exponent interval/sign: %s' % ', '.join(str(v) for v, h in used) if used else '')
         plan[i] = (goals, hy, note)
         if tight:
-            T = z3.FP('T%d' % i, z3.Float32()); tb = z3.fpToIEEEBV(T)
+            T = z3.FP('T%d' % i, z3.Float32())
+            Tv = T if sg == {0} else z3.fpNeg(T)
             subst.append((n.term, T))
-            hyps.append((T, [z3.UGE(z3.Extract(30, 23, tb), emin), z3.ULE(z3.Extract(30, 23, tb), emax), z3.Extract(31, 31, tb) == min(sg)]))
+            hyps.append((T, [z3.fpGEQ(Tv, FPV(2.0 ** (emin - 127))), z3.fpLT(Tv, FPV(2.0 ** (emax - 126)))]))
     c._plan = plan
     return plan
 def range_nodes(c): return sorted(range_plan(c))
+def prove_fp(S, name, goal, hyps, *, pref='cvc5', timeout=None, vars_=(), **kw):
+    """S.prove with cvc5 first (symfpu decides the one-multiplier range queries in well under a second where z3 needs 2-40 s); only cvc5's 'unsat' is taken as is,
+    anything else is handed to z3 through S.prove (model, replay and bookkeeping)"""
+    timeout = timeout or S.cap(150, 400)
+    if pref == 'cvc5':
+        try: r, m, dt, used = S.query(list(hyps) + [z3.Not(goal)], min(timeout, 60), 'cvc5', vars_)
+        except Exception: r = 'unknown'
+        if r == 'unsat':
+            S.rec(name=name, kind=kw.get('kind', 'lemma'), functions=list(kw.get('functions', ())), bounds=kw.get('bounds', ''), solver=used, result=r, time_s=round(dt, 3), mandatory=True, note='', status='discharged')
+            return r, None
+    return S.prove(name, goal, hyps, timeout=timeout, solver='z3', vars_=vars_, **kw)
 def range_component(S, c, only=None, covers=''):
     rp = mk_replay(S, c, cands_bits(c))
     for i, (goals, hy, note) in sorted(range_plan(c).items()):
         if only is not None and i not in only: continue
-        for label, g in goals:
-            S.prove('%s.range[d%d:%s].%s' % (c.name, i, c.A.nodes[i].op, label), g, hy, timeout=S.cap(90, 240), kind='lemma', functions=FNTXT(c.L),
-                    bounds=c.binfo + '; ' + note + covers, replay=rp)
+        for label, g, pref in goals:
+            prove_fp(S, '%s.range[d%d:%s].%s' % (c.name, i, c.A.nodes[i].op, label), g, hy, pref=pref, vars_=[c.a], kind='lemma', functions=FNTXT(c.L),
+                     bounds=c.binfo + '; ' + note + covers, replay=rp)
 
 def stdmodel_lemmas(S):
     """supporting lemmas of the standard model (generic, independent of glm)"""
@@ -450,12 +462,6 @@ def prove_interval(S, c, B, nfree, label, depth=0):
 
 # ------------------------------------------------------------------------------------------------ jobs
 def _components(): return [(L, k) for L in LENGTHS for k in range(L)]
-def _classes():
-    """components grouped by their term modulo operand order of commutative operations"""
-    cls = {}
-    for (L, k) in _components():
-        c = Comp(L, k); cls.setdefault(c.key, []).append((L, k))
-    return list(cls.values())
 def job_chain(comps, tier):
     def run(S):
         for (L, k) in comps:
@@ -469,12 +475,14 @@ def job_chain(comps, tier):
                 S.inconclusive.append('%s [not encoded: %s]' % (c.name, e))
     return run
 def job_std(S): stdmodel_lemmas(S)
-def job_range(rep, members, node):
+def job_range(L, k):
     def run(S):
-        try: c = Comp(*rep)
+        try: c = Comp(L, k)
         except Unsupported: return            # reported by the chain job
-        cov = '; term shared (up to commutativity) by components %s' % ', '.join('vec%d[%d]' % m for m in members) if len(members) > 1 else ''
-        range_component(S, c, only=[node], covers=cov)
+        try: range_component(S, c)
+        except Unsupported as e:
+            S.rec(name=c.name + '.range', kind='encode', result='unsupported', status='not-encoded', note=str(e), mandatory=True, functions=FNTXT(L))
+            S.inconclusive.append('%s.range [not encoded: %s]' % (c.name, e))
     return run
 def job_bits(label, kbits, idxs):
     def run(S):
@@ -497,13 +505,7 @@ def jobs(tier):
     quick = tier == 'quick'
     out = [('lowp.isq.chain.v%d' % L, job_chain([(L, k) for k in range(L)], tier)) for L in LENGTHS]
     out.append(('lowp.isq.stdmodel', job_std))
-    groups = _classes() if quick else [[m] for m in _components()]
-    for members in groups:
-        rep = members[0]
-        try: nodes = range_nodes(Comp(*rep))
-        except Unsupported: nodes = []
-        for i in nodes:
-            out.append(('lowp.isq.range.v%d_%d.d%d' % (rep[0], rep[1], i), job_range(rep, members, i)))
+    out += [('lowp.isq.range.v%d_%d' % (L, k), job_range(L, k)) for (L, k) in _components()]
     out.append(('lowp.isq.subnormal', job_subnormal))
     if not quick and BITS_PARTITION:
         for label, kbits in (('lo', KBITS_LO), ('hi', KBITS_HI)):
